@@ -33,13 +33,15 @@ extern "C" void c13_run()
     case C13_NESTED: {
       if (!inited)
         break;
-      int cost = op.cost, inner = op.n;
+      int cost = op.cost, inner = op.n, q = op.query;
       c13_loop_begin(op.n);
       {
         SimTag t(SIM_TAG_SUT);
-        parallel_for(3, [cost, inner](int) {
-          parallel_for(inner, [cost](int) {
+        parallel_for(3, [cost, inner, q](int) {
+          parallel_for(inner, [cost, q](int i) {
             c13_body_enter();
+            if (q && i == 0)
+              c13_query_in_body(numTaskingThreads());
             sim_work((uint32_t)cost);
             c13_body_exit();
           });
@@ -51,12 +53,14 @@ extern "C" void c13_run()
     case C13_LOOP: {
       if (!inited)
         break;  // the internal back end initialises itself lazily; keep histories comparable across lanes
-      int cost = op.cost;
+      int cost = op.cost, q = op.query;
       c13_loop_begin(op.n);
       {
         SimTag t(SIM_TAG_SUT);
-        parallel_for(op.n, [cost](int) {
+        parallel_for(op.n, [cost, q](int i) {
           c13_body_enter();
+          if (q && i == 0)
+            c13_query_in_body(numTaskingThreads());
           sim_work((uint32_t)cost);
           c13_body_exit();
         });
